@@ -85,7 +85,10 @@ def run(case):
         s = a.support(c) if case["collar"] else a.support()
         am = a.argmax()
         ams = a.argmax(sup) if sup is not None else a.argmax(None)
-        return {"support": _oann(tb, s), "durs": durs, "chart": [[nm(l), tb.u(d)] for l, d in chart],
+        out_support = _oann(tb, s)
+        from harness.annutil import assert_independent
+        assert_independent(tb, s, a, "support")          # edits both, after everything else was observed
+        return {"support": out_support, "durs": durs, "chart": [[nm(l), tb.u(d)] for l, d in chart],
                 "argmax": None if am is None else [nm(am)], "argmax_sup": None if ams is None else [nm(ams)],
                 "mul": [[tb.u(x) for x in row] for row in m.tolist()],
                 "mul_rev": [[tb.u(x) for x in row] for row in mr.tolist()],
